@@ -16,8 +16,8 @@ import (
 // any more: every goroutine sits in a blocking operation, and at least one of them
 // in an operation the simulator does not schedule (a sync.WaitGroup, sync.Cond or
 // sync.Once of the library, a channel operation under the serial scheduler of
-// engine B, a mutex inside the standard library). The second case says nothing about
-// the library: a real deadlock of the library is seen as one by the simulator (its
+// engine B, a mutex inside the standard library) while the simulator keeps other tasks
+// parked. The second case says nothing about the library: a real deadlock of the library is seen as one by the simulator (its
 // mutexes are simulated; in the bubble a set of goroutines that can never wake is
 // reported by the bubble itself), whereas here the simulator is holding back the very
 // task that would release the blocked one. Such a scenario cannot be scheduled by
@@ -30,7 +30,16 @@ type hangVerdict struct {
 	// Where: for a static hang, the blocking operation(s) outside the simulator's
 	// control that tasks sit in ("" if there is none).
 	Where string `json:"where,omitempty"`
+	// HeldBack: some task is parked by the simulator, waiting to be released. Only then
+	// can a task that sits in a blocking operation be waiting for something the
+	// simulator itself is withholding. With nobody held back (a scenario without a
+	// scheduler, or the last task of a run) a block that never ends is the library's own.
+	HeldBack bool `json:"held_back,omitempty"`
 }
+
+// artifact: the run stands still because of how the simulator schedules, not because of
+// what the library does.
+func (v hangVerdict) artifact() bool { return v.Static && v.Where != "" && v.HeldBack }
 
 var goroutineHeader = regexp.MustCompile(`^goroutine (\d+) (?:gp=\S+ m=\S+ (?:mp=\S+ )?)?\[([^\]]*)\]:`)
 
@@ -83,7 +92,7 @@ func (g gInfo) parkedBySimulator() bool {
 		if i > 6 {
 			break
 		}
-		if strings.HasPrefix(f, "verifsim/core.(*Sched).park") || strings.HasPrefix(f, "verifsim/core.rawRead") || strings.HasPrefix(f, "verifsim/core.(*Sched).block") {
+		if strings.HasPrefix(f, "verifsim/core.(*Sched).park") || strings.HasPrefix(f, "verifsim/core.rawRead") || strings.HasPrefix(f, "verifsim/core.(*Sched).block") || strings.HasPrefix(f, "verifsim/core.(*Sched).Spawn.func") {
 			return true
 		}
 	}
@@ -139,7 +148,7 @@ func snapshot() string {
 func classifyHang() hangVerdict {
 	var sigs []string
 	where := map[string]bool{}
-	moving := false
+	moving, heldBack := false, false
 	for i := 0; i < 3; i++ {
 		if i > 0 {
 			time.Sleep(150 * time.Millisecond)
@@ -148,6 +157,9 @@ func classifyHang() hangVerdict {
 		for _, g := range parseStacks(snapshot()) {
 			if g.running() && len(g.frames) == 0 {
 				moving = true // running on another thread: its stack is not available
+			}
+			if g.parkedBySimulator() {
+				heldBack = true
 			}
 			if !g.ofSimulation() {
 				continue
@@ -175,5 +187,5 @@ func classifyHang() hangVerdict {
 		ws = append(ws, w)
 	}
 	sort.Strings(ws)
-	return hangVerdict{Static: true, Where: strings.Join(ws, "; ")}
+	return hangVerdict{Static: true, Where: strings.Join(ws, "; "), HeldBack: heldBack}
 }
